@@ -489,16 +489,22 @@ def patch_modules(sim):
     fth = types.SimpleNamespace(Thread=FakeThreadCls, Event=_threading.Event, Lock=FakeLock, RLock=FakeRLock,
                                 current_thread=fake_current_thread, get_ident=fake_get_ident, main_thread=_threading.main_thread,
                                 Semaphore=_threading.Semaphore, Condition=_threading.Condition, Timer=_threading.Timer, local=_threading.local)
-    for mn in ['j1939.electronic_control_unit', 'j1939.j1939_21', 'j1939.j1939_22', 'j1939.Dm14Query',
-               'j1939.Dm14Server', 'j1939.memory_access']:
+    import time as _real_time
+    # every module of the package that refers to the clock, to queues or to threads — whichever modules those are today
+    for mn in sorted(k for k in sys.modules if k == 'j1939' or k.startswith('j1939.')):
         m = sys.modules.get(mn)
-        if m is None:
+        if m is None or not isinstance(m, types.ModuleType):
             continue
-        if hasattr(m, 'time'):
+        t = m.__dict__.get('time')
+        if t is _real_time or isinstance(t, FakeTime):
             m.time = ft
-        if hasattr(m, 'queue'):
+        elif t is _real_time.time:
+            m.time = ft.time                     # (from time import time)
+        q = m.__dict__.get('queue')
+        if q is _queue or isinstance(q, types.SimpleNamespace):
             m.queue = fq
-        if hasattr(m, 'threading'):
+        th = m.__dict__.get('threading')
+        if th is _threading or isinstance(th, types.SimpleNamespace):
             m.threading = fth
         if mn.endswith('j1939_22'):
             m.print = lambda *a, **k: None      # the module reports unsupported multi-PG formats with print()
